@@ -461,6 +461,30 @@ fn main() {
             };
             emit("mutant", json!({"class": class, "accepted": accepted, "equal": equal, "len": mt.len()}));
         }
+        // well-formed tokens of exactly chosen encoded lengths on both sides of the 512-byte bound (the bound is
+        // on the token as sent, not on what it decodes to)
+        emit("reset", json!({"kind": "case", "n": "bound"}));
+        for target in [500usize, 504, 508, 512, 516, 520, 524, 560, 600, 640, 676, 680, 684, 688, 720, 1024] {
+            for _ in 0..3 {
+                let last = r.gen_range(1..1000);
+                let base = Sel { order: Order::Asc, last, big: big_of(last), pad: String::new() };
+                let base_json = format!("{{\"v\":\"v1\",\"page_start\":{}}}", serde_json::to_string(&base).unwrap());
+                // encoded length is 4 * ceil(n / 3): pick the JSON length n = target / 4 * 3 (no padding)
+                let n = target / 4 * 3;
+                if n < base_json.len() {
+                    continue;
+                }
+                let sel = Sel { pad: "k".repeat(n - base_json.len()), ..base };
+                let tok = b64(format!("{{\"v\":\"v1\",\"page_start\":{}}}", serde_json::to_string(&sel).unwrap()).as_bytes());
+                let (class, want) = classify(&tok);
+                let back = serde_urlencoded::from_str::<PaginationParams<Scan, Sel>>(&format!("page_token={}", pct(&tok)));
+                let (accepted, equal) = match &back {
+                    Ok(pp) => match &pp.page { WhichPage::Next(s) => (true, Some(s) == want.as_ref()), _ => (false, false) },
+                    Err(_) => (false, false),
+                };
+                emit("mutant", json!({"class": class, "accepted": accepted, "equal": equal, "len": tok.len(), "exact": target}));
+            }
+        }
         let _ = server.close().await;
     });
     let lines = dropshot::verif::take_memory();
